@@ -44,6 +44,12 @@ def _build(rng, K, chains, residues_of, atoms_per_res=(1, 2), serial0=1, serial_
                 for _ in range(rng.randint(*atoms_per_res)):
                     a = _atom(rng, K, ch, rs, ic, 0, m)
                     a["resn"] = resn
+                    # mmCIF carries two naming families; in real files they differ (O1P vs OP1, GUA vs G): the
+                    # label_* names of some atoms are made different from the author names the table is about
+                    if rng.random() < 0.25:
+                        a["lname"] = {"OP1": "O1P", "OP2": "O2P"}.get(a["name"], a["name"] + "L")
+                    if rng.random() < 0.25:
+                        a["lresn"] = {"A": "ADE", "C": "CYT", "G": "GUA", "U": "URA"}[resn]
                     rows.append(a)
             blocks.append(rows)
         if interleave:
